@@ -138,70 +138,82 @@ def callMethod (recv : JSVal) (name : String) (args : List JSVal) : Option JSVal
 
 abbrev Env := List (String × JSVal)
 
-partial def eval (ρ : Env) : Expr → Option JSVal
-  | .num q _ => some (.num q)
-  | .str s => some (.str s)
-  | .bool b => some (.bool b)
-  | .null => some .null
-  | .ident x => some (lookupProp ρ x)
-  | .un .not e => do let v ← eval ρ e; pure (.bool (!toBool v))
-  | .un .neg e => do
-    match ← eval ρ e with
+/-- the binary operators other than `&&` / `||` on two values -/
+def binPrim (op : BinOp) (a b : JSVal) : Option JSVal :=
+  match op, a, b with
+  | .add, .num x, .num y => pure (.num (x + y))
+  | .add, .str x, .str y => pure (.str (x ++ y))
+  | .add, .str x, .num y => do pure (.str (x ++ (← numToString y)))
+  | .add, .num x, .str y => do pure (.str ((← numToString x) ++ y))
+  | .sub, .num x, .num y => pure (.num (x - y))
+  | .mul, .num x, .num y => pure (.num (x * y))
+  | .div, .num x, .num y => if y == 0 then none else pure (.num (x / y))
+  | .mod, .num x, .num y => do pure (.num (← jsRem x y))
+  | .lt, .num x, .num y => pure (.bool (x < y))
+  | .le, .num x, .num y => pure (.bool (x ≤ y))
+  | .gt, .num x, .num y => pure (.bool (x > y))
+  | .ge, .num x, .num y => pure (.bool (x ≥ y))
+  | .lt, .str x, .str y => pure (.bool (x < y))
+  | .le, .str x, .str y => pure (.bool (x < y || x == y))
+  | .gt, .str x, .str y => pure (.bool (y < x))
+  | .ge, .str x, .str y => pure (.bool (y < x || x == y))
+  | .eq, x, y | .seq, x, y => if sameType x y then do pure (.bool (← strictEq x y)) else none
+  | .ne, x, y | .sne, x, y => if sameType x y then do pure (.bool (!(← strictEq x y))) else none
+  | _, _, _ => none
+
+set_option linter.unusedVariables false in
+/-- the reference evaluator; recursion is on the fuel (total), `evalFuel` is far above any nesting in use -/
+def evalF : Nat → Env → Expr → Option JSVal
+  | 0, _, _ => none
+  | fuel + 1, ρ, .num q _ => some (.num q)
+  | fuel + 1, ρ, .str s => some (.str s)
+  | fuel + 1, ρ, .bool b => some (.bool b)
+  | fuel + 1, ρ, .null => some .null
+  | fuel + 1, ρ, .ident x => some (lookupProp ρ x)
+  | fuel + 1, ρ, .un .not e => do let v ← evalF fuel ρ e; pure (.bool (!toBool v))
+  | fuel + 1, ρ, .un .neg e => do
+    match ← evalF fuel ρ e with
     | .num q => pure (.num (-q))
     | _ => none
-  | .bin op l r => do
-    let a ← eval ρ l
+  | fuel + 1, ρ, .bin op l r => do
+    let a ← evalF fuel ρ l
     match op with
-    | .land => if toBool a then eval ρ r else pure a
-    | .lor => if toBool a then pure a else eval ρ r
+    | .land => if toBool a then evalF fuel ρ r else pure a
+    | .lor => if toBool a then pure a else evalF fuel ρ r
     | _ =>
-      let b ← eval ρ r
-      match op, a, b with
-      | .add, .num x, .num y => pure (.num (x + y))
-      | .add, .str x, .str y => pure (.str (x ++ y))
-      | .add, .str x, .num y => do pure (.str (x ++ (← numToString y)))
-      | .add, .num x, .str y => do pure (.str ((← numToString x) ++ y))
-      | .sub, .num x, .num y => pure (.num (x - y))
-      | .mul, .num x, .num y => pure (.num (x * y))
-      | .div, .num x, .num y => if y == 0 then none else pure (.num (x / y))
-      | .mod, .num x, .num y => do pure (.num (← jsRem x y))
-      | .lt, .num x, .num y => pure (.bool (x < y))
-      | .le, .num x, .num y => pure (.bool (x ≤ y))
-      | .gt, .num x, .num y => pure (.bool (x > y))
-      | .ge, .num x, .num y => pure (.bool (x ≥ y))
-      | .lt, .str x, .str y => pure (.bool (x < y))
-      | .le, .str x, .str y => pure (.bool (x < y || x == y))
-      | .gt, .str x, .str y => pure (.bool (y < x))
-      | .ge, .str x, .str y => pure (.bool (y < x || x == y))
-      | .eq, x, y | .seq, x, y => if sameType x y then do pure (.bool (← strictEq x y)) else none
-      | .ne, x, y | .sne, x, y => if sameType x y then do pure (.bool (!(← strictEq x y))) else none
-      | _, _, _ => none
-  | .cond c a b => do
-    let v ← eval ρ c
-    if toBool v then eval ρ a else eval ρ b
-  | .arr es => do pure (.arr (← es.mapM (eval ρ)))
-  | .obj kvs => do pure (.obj (← kvs.mapM fun (k, e) => do pure (k, ← eval ρ e)))
-  | .dot e name => do
-    match ← eval ρ e, name with
+      let b ← evalF fuel ρ r
+      binPrim op a b
+  | fuel + 1, ρ, .cond c a b => do
+    let v ← evalF fuel ρ c
+    if toBool v then evalF fuel ρ a else evalF fuel ρ b
+  | fuel + 1, ρ, .arr es => do pure (.arr (← es.mapM (evalF fuel ρ)))
+  | fuel + 1, ρ, .obj kvs => do pure (.obj (← kvs.mapM fun (k, e) => do pure (k, ← evalF fuel ρ e)))
+  | fuel + 1, ρ, .dot e name => do
+    match ← evalF fuel ρ e, name with
     | .arr xs, "length" => pure (.num xs.length)
     | .str s, "length" => pure (.num s.length)
     | .obj ps, k => pure (lookupProp ps k)
     | _, _ => none
-  | .idx e i => do
-    match ← eval ρ e, ← eval ρ i with
+  | fuel + 1, ρ, .idx e i => do
+    match ← evalF fuel ρ e, ← evalF fuel ρ i with
     | .arr xs, .num q =>
       if q.den == 1 && q.num ≥ 0 && q.num < xs.length then pure (xs.getD q.num.toNat .undefined) else pure .undefined
     | .obj ps, .str k => pure (lookupProp ps k)
     | _, _ => none
-  | .call (.dot recv name) args => do
-    let r ← eval ρ recv
-    let as ← args.mapM (eval ρ)
+  | fuel + 1, ρ, .call (.dot recv name) args => do
+    let r ← evalF fuel ρ recv
+    let as ← args.mapM (evalF fuel ρ)
     callMethod r name as
-  | .call _ _ => none
-  | .tpl parts => do
+  | fuel + 1, ρ, .call _ _ => none
+  | fuel + 1, ρ, .tpl parts => do
     let ss ← parts.mapM fun p => match p with
       | .inl s => some s
-      | .inr e => do toStr (← eval ρ e)
+      | .inr e => do toStr (← evalF fuel ρ e)
     pure (.str (String.join ss))
+
+
+def evalFuel : Nat := 100000
+
+def eval (ρ : Env) (e : Expr) : Option JSVal := evalF evalFuel ρ e
 
 end Pug.JS
